@@ -434,9 +434,12 @@ def gen_interval(rnd):
     if r < 0.8:
         s = rnd.randrange(H, (1 << 32) - 8)
         return ("hardened-range", [str(s), str(s + rnd.randrange(1, 4))])
-    if r < 0.87:
+    if r < 0.84:
         s = rnd.randrange(1, 1000)
         return ("start>end", [str(s), str(s - rnd.randrange(1, 5))])
+    if r < 0.87:
+        e = H - rnd.randrange(0, 3)
+        return ("start>end-straddle", [str(H + rnd.randrange(1, 4)), str(e)])
     if r < 0.93:
         return ("junk", [rnd.choice(["a", "1.0", "", "0x5", "None"]), "3"])
     return ("lenient", [rnd.choice(["+1", " 2", "0_0"]), "3"])
@@ -655,6 +658,9 @@ def run(ctx):
             judge_run(ctx, gen_case(rnd, j), "strace" if j0 % 8 == 0 else "subprocess")
         # fixed regression shapes (both runners): the interval that used to yield hardened address rows, help path, no args
         fixed = [
+            {"cmd": "from-bip39-seed", "cmd_args": ["11" * 64], "source": {"hex": "11" * 64}, "interval_s": [str(H + 2), str(H)], "file": {"kind": "none"}, "fault": "interval-reversed-straddle"},
+            {"cmd": "from-bip39-seed", "cmd_args": ["11" * 64], "source": {"hex": "11" * 64}, "interval_s": [str(H + 1), str(H - 1)], "file": {"kind": "new"}, "paranoia": True, "fault": "interval-reversed-straddle"},
+            {"cmd": "from-bip39-seed", "cmd_args": ["11" * 64], "source": {"hex": "11" * 64}, "interval_s": ["5", "2"], "file": {"kind": "none"}, "fault": "interval-reversed"},
             {"cmd": "from-bip39-seed", "cmd_args": ["00" * 64], "source": {"hex": "00" * 64}, "interval_s": [str(H), str(H + 2)], "file": {"kind": "none"}, "fault": "interval-hardened"},
             {"cmd": "from-bip39-seed", "cmd_args": ["00" * 64], "source": {"hex": "00" * 64}, "interval_s": [str(H - 1), str(H + 1)], "file": {"kind": "new"}, "fault": "interval-straddles"},
             {"cmd": "from-bip39-seed", "cmd_args": ["00" * 64], "source": {"hex": "00" * 64}, "interval_s": [str(H - 1), str(H)], "file": {"kind": "new"}, "fault": "valid"},
